@@ -24,6 +24,11 @@ func init() {
 	}
 	wrap("C18", extra11C18)
 	wrap("C08", extra11C08)
+	wrap("C05", extra11C05)
+	wrap("C19", extra11C19)
+	wrap("C17", extra11C17)
+	wrap("C03", func(c *Ctx) { ruleTolerantNameLookup(c, "C03-R21") })
+	registry["C05"].Pkgs = append(registry["C05"].Pkgs, "convert")
 }
 
 // ---------------------------------------------------------------------------------- C18
@@ -165,4 +170,177 @@ func extra11C08(c *Ctx) {
 			c.Check(rule, f.Key()+" copies the blob only past a size test that can refuse", c.Pos(h.Node), ok, "no test of the opened blob's size dominates the copy: an empty placeholder would be linked")
 		}
 	}
+}
+
+// ---------------------------------------------------------------------------------- C05
+
+func extra11C05(c *Ctx) {
+	rule := "C05-R14"
+	c.Rule(rule, "the bytes a converted tensor writes are of the kind its info records: WriteGGUF sizes and types a safetensors tensor by Kind() (which has two by-name exceptions to the rank rule), so every use of safetensor.WriteTo's writer parameter is inside a case of a switch on the tensor's Kind() — a write chosen by dtype or rank alone emits a different width for the excepted names and shifts every tensor behind it")
+	f := c.Fn(rule, "convert", "safetensor.WriteTo")
+	if f == nil {
+		return
+	}
+	info := f.Info()
+	w := paramAt(f, 0)
+	var kindCases []ast.Node
+	ast.Inspect(f.Body, func(nd ast.Node) bool {
+		sw, ok := nd.(*ast.SwitchStmt)
+		if !ok || sw.Tag == nil {
+			return true
+		}
+		tag := ast.Unparen(sw.Tag)
+		if id, isId := tag.(*ast.Ident); isId {
+			if v, isV := info.Uses[id].(*types.Var); isV {
+				if rhs, _, cnt := singleDef(info, f.Body, v); cnt == 1 && rhs != nil {
+					tag = ast.Unparen(rhs)
+				}
+			}
+		}
+		if call, isC := tag.(*ast.CallExpr); isC && strings.HasSuffix(core.CalleeName(info, call), "tensorBase.Kind") {
+			for _, cl := range sw.Body.List {
+				if cc, isCC := cl.(*ast.CaseClause); isCC && cc.List != nil {
+					kindCases = append(kindCases, cc)
+				}
+			}
+		}
+		return true
+	})
+	n := 0
+	ast.Inspect(f.Body, func(nd ast.Node) bool {
+		id, ok := nd.(*ast.Ident)
+		if !ok || info.Uses[id] != w {
+			return true
+		}
+		n++
+		in := false
+		for _, cc := range kindCases {
+			if within(cc, id) {
+				in = true
+			}
+		}
+		c.Check(rule, f.Key()+" writer used only under a case of Kind()", c.Pos(id), in, "the writer is used outside the switch on Kind(): what is written there is not tied to the recorded tensor kind")
+		return true
+	})
+	c.Expect(rule, "uses of the writer in safetensor.WriteTo", n, 2)
+}
+
+// ---------------------------------------------------------------------------------- C19
+
+func extra11C19(c *Ctx) {
+	rule := "C19-R12"
+	c.Rule(rule, "the handler hands chatPrompt the whole conversation: in ChatHandler the messages argument of chatPrompt is a local that is only ever grown — each of its assignments is an append whose base is a message list field, a literal or the local itself and whose further operands are literals or spreads of such lists, one of them the request's Messages — and it is given to no other call; dropping turns before the call (say the ones without text, which may carry images) removes retained messages and renumbers the images behind them")
+	f := c.Fn(rule, "server", "Server.ChatHandler")
+	if f == nil {
+		return
+	}
+	info := f.Info()
+	calls := core.CallsTo(info, f.Body, true, "server.chatPrompt")
+	c.Expect(rule, "chatPrompt calls in ChatHandler", len(calls), 1)
+	for _, call := range calls {
+		if len(call.Args) < 5 {
+			continue
+		}
+		id, isId := ast.Unparen(call.Args[4]).(*ast.Ident)
+		if !isId {
+			c.Check(rule, f.Key()+" messages argument is a grown local", c.Pos(call), false, "the messages argument is not a local variable")
+			continue
+		}
+		msgs := info.Uses[id]
+		isList := func(e ast.Expr) bool { // a []api.Message field, a literal, or the local
+			e = ast.Unparen(e)
+			if _, isLit := e.(*ast.CompositeLit); isLit {
+				return true
+			}
+			if isIdentOf(info, e, msgs) {
+				return true
+			}
+			if se, isSel := e.(*ast.SelectorExpr); isSel {
+				if fv := core.FieldVar(info, se); fv != nil && fv.Name() == "Messages" {
+					return true
+				}
+			}
+			return false
+		}
+		sawReq := false
+		nAssign := 0
+		ast.Inspect(f.Body, func(nd ast.Node) bool {
+			switch x := nd.(type) {
+			case *ast.AssignStmt:
+				for i, l := range x.Lhs {
+					lid, isL := l.(*ast.Ident)
+					if !isL || info.ObjectOf(lid) != msgs {
+						continue
+					}
+					nAssign++
+					ok := false
+					why := "assignment is not an append of message lists"
+					if len(x.Rhs) == len(x.Lhs) {
+						if ac, isC := ast.Unparen(x.Rhs[i]).(*ast.CallExpr); isC && core.CalleeName(info, ac) == "builtin.append" && len(ac.Args) >= 1 && isList(ac.Args[0]) {
+							ok = true
+							for k, a := range ac.Args[1:] {
+								spread := ac.Ellipsis.IsValid() && k == len(ac.Args)-2
+								if spread {
+									if !isList(a) {
+										ok = false
+										why = "a spread operand is not a message list field, a literal or the local"
+									}
+									if se, isSel := ast.Unparen(a).(*ast.SelectorExpr); isSel && core.PathOf(info, se.X).Valid() {
+										if t := info.TypeOf(se.X); t != nil && strings.HasSuffix(strings.TrimPrefix(t.String(), "*"), "api.ChatRequest") {
+											sawReq = true
+										}
+									}
+								} else if _, isLit := ast.Unparen(a).(*ast.CompositeLit); !isLit {
+									ok = false
+									why = "a single operand is not a message literal"
+								}
+							}
+						}
+					}
+					c.Check(rule, f.Key()+" messages local only grows", c.Pos(x), ok, why)
+				}
+			case *ast.CallExpr:
+				if x == call {
+					return true
+				}
+				name := core.CalleeName(info, x)
+				if name == "builtin.append" || name == "builtin.len" {
+					return true
+				}
+				for _, a := range x.Args {
+					if core.UsesObj(info, a, msgs) {
+						c.Check(rule, f.Key()+" messages local given to no other call", c.Pos(x), false, "the messages local is handed to "+name+", which may drop or reorder turns")
+					}
+				}
+			}
+			return true
+		})
+		c.Expect(rule, "assignments to the messages local", nAssign, 1)
+		c.Check(rule, f.Key()+" the request's messages are appended", c.Pos(call), sawReq, "no assignment appends the spread of the request's Messages")
+	}
+}
+
+// ---------------------------------------------------------------------------------- C17
+
+func extra11C17(c *Ctx) {
+	rule := "C17-R19"
+	c.Rule(rule, "the OpenAI stream carries what the native stream carries: ChatWriter.Write and CompleteWriter.Write choose between the error form and the response form by the response status alone — no branch condition in them reads the line's bytes (a pattern such as \"error\": also occurs inside a tool call's arguments, and the tool call would be replaced by an error event while /api/chat delivers it)")
+	n := 0
+	for _, name := range []string{"ChatWriter.Write", "CompleteWriter.Write"} {
+		f := c.Fn(rule, "openai", name)
+		if f == nil {
+			continue
+		}
+		info := f.Info()
+		g := c.G(f)
+		data := paramAt(f, 0)
+		for _, cb := range g.CondBlocks() {
+			if cb.Cond == nil {
+				continue
+			}
+			n++
+			c.Check(rule, f.Key()+" branch does not read the line", c.Pos(cb.Cond), !core.UsesObj(info, cb.Cond, data), "the branch on `"+core.ExprString(cb.Cond)+"` depends on the bytes of the line being written")
+		}
+	}
+	c.Expect(rule, "branch conditions in the two stream writers", n, 2)
 }
